@@ -1,21 +1,22 @@
 ------------------------------- MODULE Conformance -------------------------------
 (***************************************************************************)
 (* Conformance of the real node to the executable model of the executor     *)
-(* (Ledger.tla): for every recorded delivery that the model covers          *)
-(* (Supported: Send, Multisend, CreateMultisig, EditMultisig, Lock,         *)
-(* RedeemCheck, commission in the base coin, price table in the base coin,  *)
-(* bytes as signed) the response code and the complete abstract state after *)
+(* (Ledger.tla, Staking.tla): for every recorded delivery that the model    *)
+(* covers (Send, Multisend, CreateMultisig, EditMultisig, Lock, RedeemCheck,*)
+(* Delegate, Unbond, MoveStake, LockStake, SetCandidateOn/Off; commission   *)
+(* and stake in the base coin, price table in the base coin, bytes as       *)
+(* signed) the response code and the complete abstract state after *)
 (* the call must be the ones RunTx computes from the state before the call. *)
 (* A mismatch is reported as drift: the specification no longer describes   *)
 (* the code (or the other way round).  It is not a verdict on any listed    *)
 (* property -- those are the clauses of Props*.tla -- but it is what ties    *)
 (* the model that TLC explores exhaustively to the implementation.          *)
 (***************************************************************************)
-EXTENDS PropsCodec, Ledger
+EXTENDS PropsCodec, Staking
 
-ModelCovers == /\ Delivered /\ Tx.intact /\ Tx.mut = "" /\ Supported(st, Tx) /\ "st" \in DOMAIN ev'
+ModelCovers == /\ Delivered /\ Tx.intact /\ Tx.mut = "" /\ (Supported(st, Tx) \/ StakingSupported(st, Tx)) /\ "st" \in DOMAIN ev'
                /\ (Tx.type = "RedeemCheck" => (HasArg("issuer") /\ HasArg("proofOk")))
-Predicted == RunTx(st, Tx, H, Cfg.chain)
+Predicted == RunTxS(st, Tx, H, Cfg)
 Conf_Code ==
    Clause("DRIFT", "LedgerModelPredictsCode", ModelCovers, Predicted.code = Code,
           [at |-> WhereTx, predicted |-> Predicted.code])
